@@ -1,10 +1,14 @@
 package payment
 
 import (
+	"context"
+	"errors"
 	"math/big"
 	"time"
 
 	"github.com/vipnode/vipnode/v2/internal/verifapi"
+	"github.com/vipnode/vipnode/v2/internal/verifmodels/sigs"
+	"github.com/vipnode/vipnode/v2/pool"
 	"github.com/vipnode/vipnode/v2/pool/balance"
 	"github.com/vipnode/vipnode/v2/pool/store"
 )
@@ -111,7 +115,7 @@ func VerifC03RealBig() {
 	db.AddAccountNode(wal, client)
 	db.AddNodeBalance(client, big.NewInt(300))
 	db.AddNodeBalance(client, big.NewInt(200)) // 500, in a number with spare capacity (as every accumulated credit has)
-	deposit := int64([]int{0, 100}[verifapi.Choose("deposit", 2)])
+	deposit := int64([]int{0, 100, 1000}[verifapi.Choose("deposit", 3)])
 	cp := &contractPayment{store: db}
 	cp.balanceCache.Getter = func(a store.Account) (*big.Int, error) { return big.NewInt(deposit), nil }
 	mgr := balance.PayPerInterval(cp, time.Minute, big.NewInt(60)) // 1 unit per second and host
@@ -119,8 +123,17 @@ func VerifC03RealBig() {
 	mgr.MinBalance = big.NewInt(min)
 	credit := int64(500)
 	last := now
+	// the wallet may also try to withdraw in between; the attempt is refused (minimum not met) and
+	// must leave what the balance manager reads - deposit and credit - as it was
+	pay := &PaymentService{NonceStore: db, AccountStore: db, BalanceStore: cp, WithdrawMin: big.NewInt(1000000000),
+		Settle: func(store.Account, *big.Int, *big.Int) (string, error) { return "", errors.New("not reached") }}
 	steps := verifapi.Param("steps", 3)
 	for k := 0; k < steps; k++ {
+		if verifapi.Param("withdraws", 1) == 1 && verifapi.Bool("withdraw-attempt") {
+			nonce := pool.VerifFreshNonce()
+			err := pay.Withdraw(context.Background(), sigs.SignFor(string(wal), "pool_withdraw", nonce), string(wal), nonce)
+			verifapi.Assert(err != nil, "c03.real.withdraw-below-minimum-refused")
+		}
 		dt := []int64{10, 200, 400}[verifapi.Choose("dt", 3)]
 		now = now.Add(time.Duration(dt) * time.Second)
 		verifapi.SetNow(now)
@@ -136,6 +149,8 @@ func VerifC03RealBig() {
 		}
 		stored, _ := db.GetAccountBalance(wal)
 		verifapi.Assert(stored.Credit.Int64() == credit, "c03.real.stored-credit-is-previous-minus-charge")
+		seen, _ := cp.GetAccountBalance(wal)
+		verifapi.Assert(seen.Deposit.Int64() == deposit, "c03.real.deposit-read-is-the-deposit")
 		hb, _ := db.GetNodeBalance(host)
 		earned := 500 - credit
 		if nh == 2 && !shared {
